@@ -1,4 +1,5 @@
 import PynguinModel.Lemmas.FsIsolationRun
+import PynguinModel.Lemmas.FsIsolationPath
 /-!
 # C29 — Filesystem isolation never modifies or deletes pre-existing paths
 
@@ -57,6 +58,69 @@ theorem C29_write_to_preexisting_refused (init : FS) (ops : List Op) (hpc : Pref
     | true => exact absurd (hinv.owns_fresh hpc hb) h
   simp [trackedOpen, ho]
 
+/-! ## containment is by path components, not by characters
+
+`_is_isolated` works on path STRINGS (`Model/FsPathStr.lean`: `render`, `dirnameC`, `isolatedWalk`).  On real
+file names its ancestor walk decides exactly the component-wise containment the invariant is stated with, so a
+pre-existing sibling whose NAME merely extends a created name (`report` / `report.bak`, `out` / `output`) is
+never isolated.  Character-wise containment (`commonprefix`, `startswith` without the separator) is not. -/
+
+/-- the string walk of `_is_isolated` answers "some recorded path is a component-wise prefix" -/
+theorem C29_walk_is_component_containment (cr : List Path) (r : Path)
+    (hcr : ∀ c ∈ cr, CleanPath c) (hr : CleanPath r) :
+    isIsolatedStr cr r = true ↔ ∃ c ∈ cr, ∃ t, r = c ++ t := by
+  rw [isIsolatedStr_eq_covered hcr hr, covered_iff_prefix]
+
+/-- whatever has been created so far, the string walk of `_is_isolated` never declares a pre-existing path
+isolated — in particular not a sibling whose name has a created name as a character prefix -/
+theorem C29_preexisting_never_isolated (init : FS) (ops : List Op) (hpc : PrefixClosed init)
+    (hcl : ∀ c ∈ (run ops ⟨init, []⟩).created, CleanPath c) (r : Path) (hr : CleanPath r)
+    (h : get init r ≠ none) : isIsolatedStr (run ops ⟨init, []⟩).created r = false := by
+  rw [isIsolatedStr_eq_covered hcl hr]
+  cases hc : covered (run ops ⟨init, []⟩).created r with
+  | false => rfl
+  | true => exact absurd ((run_inv hpc ops _ (Inv.start init)).covered_fresh hpc hc) h
+
+/-- character-wise containment accepts everything the component-wise one accepts … -/
+theorem C29_char_containment_weaker (cr : List Path) (r : Path) (h : covered cr r = true) :
+    charCovered (cr.map render) (render r) = true :=
+  charCovered_of_covered h
+
+/-- … and more: after `open("report", "w")` the pre-existing sibling `report.bak` counts as isolated
+character-wise, the open wrapper deciding that way lets `open("report.bak", "w")` through, the file is
+overwritten and the exit deletes it; the real wrapper refuses. -/
+theorem C29_char_prefix_containment_cex :
+    let init : FS := [([], .dir), (["report.bak"], .file [1])]
+    let s1 := (builtinOpen ["report"] .w [2] ⟨init, []⟩).1
+    let wr := liftRaw (fun fs => rawOpen (modeSpec .w) fs ["report.bak"] [3])
+    let bad := (charTrackedOpen true ["report.bak"] wr s1).1
+    s1.created = [["report"]] ∧
+    covered s1.created ["report.bak"] = false ∧ isIsolatedStr s1.created ["report.bak"] = false ∧
+    charCovered (s1.created.map render) (render ["report.bak"]) = true ∧
+    (trackedOpen true ["report.bak"] wr s1).2 = .refused ∧
+    get bad.fs ["report.bak"] = some (.file [3]) ∧ get (exitCleanup bad) ["report.bak"] = none := by
+  refine ⟨by decide, by decide, by decide, by decide, by decide, by decide, ?_⟩
+  rw [get_exitCleanup]
+  decide
+
+/-- the same one level down: a created directory `out` does not isolate what lies in the pre-existing `output` -/
+example : covered [["out"]] ["output", "keep.txt"] = false ∧ isIsolatedStr [["out"]] ["output", "keep.txt"] = false ∧
+    charCovered ([["out"]].map render) (render ["output", "keep.txt"]) = true ∧
+    isIsolatedStr [["out"]] ["out", "put"] = true := by decide
+
+/-! ## spelled arguments (`d/`, `d//x`, `d/./x`, `d/sub/../x`, relative to the working directory) -/
+
+/-- the full property for operations whose arguments are spelled in any way the operating system resolves
+like `_abspath` does; an operation spelled otherwise is outside the model (`stepSp`) -/
+theorem C29_spelled_run_restores_tree (init : FS) (ops : List SpOp) (hpc : PrefixClosed init) (r : Path) :
+    get (exitCleanup (runSp ops ⟨init, []⟩)) r = get init r :=
+  exit_restores hpc (runSp_inv hpc ops _ (Inv.start init)) r
+
+/-- a normal form spells itself: `_abspath` leaves it alone and it resolves like itself in every tree -/
+theorem C29_normal_form_spells_itself (fs : FS) (p : Path) (h : cleanPathB p = true) :
+    normSegs p = p ∧ resolvesLikeNorm fs [] p = true :=
+  ⟨normSegs_clean h, resolvesLikeNorm_clean fs [] p h⟩
+
 /-! ## non-vacuity and the defect of the unrepaired wrapper -/
 
 def demoInit : FS := [([], .dir), (["d"], .dir), (["d", "f"], .file [1, 2]), (["g"], .file [])]
@@ -84,5 +148,11 @@ theorem C29_legacy_open_existing_cex :
   refine ⟨by decide, by decide, ?_⟩
   rw [get_exitCleanup]
   decide
+
+/-- spellings: normalisation, resolution through existing directories only, in and out of the model -/
+example : normSegs ["d0", "", "sub", "..", ".", "out.txt", ""] = ["d0", "out.txt"] ∧
+    resolvesLikeNorm demoInit [] ["d", "..", "g"] = true ∧ resolvesLikeNorm demoInit [] ["g", "..", "d"] = false ∧
+    (stepSp ⟨.mkdir ["d", "x"], some ["d", "..", "d", "x"], none⟩ ⟨demoInit, []⟩).2 = .ok ∧
+    (stepSp ⟨.mkdir ["x"], some ["nope", "..", "x"], none⟩ ⟨demoInit, []⟩).2 = .unmodelled := by decide
 
 end PynguinModel.FsIsolation
